@@ -269,3 +269,6 @@ func ShortReads(on bool) {}
 
 // SSTCuts has no native counterpart (real tables reach the size threshold only with megabytes of data).
 func SSTCuts(on bool) {}
+
+// YieldAtDB has no native twin: the Go scheduler cannot be steered.
+func YieldAtDB(on bool) {}
